@@ -59,3 +59,20 @@ func (gw *GlobalWindow) VerifTriggerSpecs() ([]VerifAggSpec, string) {
 	}
 	return out, gw.rewrittenPredicate
 }
+
+// VerifAge lets d pass for the reaper: every group's last-arrival stamp becomes d older
+// (processRow keeps stamping with the real clock, reapIdleKeys is called with the real clock).
+func (gw *GlobalWindow) VerifAge(d time.Duration) {
+	gw.mu.Lock()
+	defer gw.mu.Unlock()
+	for _, gs := range gw.groups {
+		gs.lastActive = gs.lastActive.Add(-d)
+	}
+}
+
+// VerifReapTick: the Start goroutine's ticker fires (the ticker exists only when STATETTL > 0).
+func (gw *GlobalWindow) VerifReapTick() {
+	if gw.countStateTTL > 0 {
+		gw.reapIdleKeys(time.Now())
+	}
+}
